@@ -127,7 +127,10 @@ func HarnessMetadata() {
 			vrtAssert("C10.fault-ends-in-error-reply", rp.Kind == "error" && rp.Code >= 500)
 			vrtAssert("C10.no-signed-metadata-after-fault", !served || ent.Signature == nil)
 		}
-		if vrtProp("C09") || vrtProp("C10") || vrtProp("C15") {
+		if vrtProp("C18") {
+			vrtC18Reply(rp, rp.Kind == "xml", served)
+		}
+		if vrtProp("C09") || vrtProp("C10") || vrtProp("C15") || vrtProp("C18") {
 			return
 		}
 		if vrtProp("C11") {
